@@ -348,6 +348,11 @@ def run_case(case, ctx):
                     raise
                 ctx.fail(f"{sig}/raises/{type(exc).__name__}@{w[0]}:{w[1]}/{tag}", message=str(exc)[:200])
                 continue
+            want_len = 3 if case["optimizer"] == "minuit" else 2
+            if not (isinstance(r, tuple) and len(r) == want_len):
+                ctx.fail(f"{sig}/return_layout/{tag}", got=(len(r) if isinstance(r, tuple) else type(r).__name__),
+                         want=want_len)
+                continue
             if case["optimizer"] == "minuit":
                 pars_t, val, res_obj = r
                 # the success flag must be backed by MINUIT's own final state (after the HESSE call pyhf makes)
